@@ -69,8 +69,8 @@ def gen_prog(rng, depth=0):
             n = rng.choice(NAMES + ['n'])
             ops.append(('set', n, rng.randint(0, 10) if n == 'n' else tok()))
         elif c < 0.5:
-            keys = rng.sample(NAMES + ['n'], rng.randint(1, 3))
-            ops.append(('update', [(k, rng.randint(0, 10) if k == 'n' else tok()) for k in keys]))
+            keys = rng.sample(NAMES + ['n', 'e'], rng.randint(1, 3))
+            ops.append(('update', [(k, rng.randint(0, 10) if k == 'n' else True if k == 'e' else tok()) for k in keys]))
         elif c < 0.62:
             ops.append(('batch', gen_prog(rng, depth + 1)))
         elif c < 0.7:
@@ -190,7 +190,7 @@ class Exec:
                     items.insert(f[2], bad)
                     self.rejected_at = f[2]
                 for kk, vv in items:
-                    if kk in NAMES or (kk == 'n' and vv != 99):
+                    if kk in NAMES or kk == 'e' or (kk == 'n' and vv != 99):
                         self.touch(kk, vv)
                 if k == 'update':
                     o.param.update(dict(items)) if len({x[0] for x in items}) == len(items) else o.param.update(items)
